@@ -2,6 +2,7 @@ import EoNVerif.Props.C04
 import EoNVerif.Props.C11
 import EoNVerif.Props.C13
 import EoNVerif.Props.C04b
+import EoNVerif.Props.C05b
 /-!
 C05 — requested initial conditions: the theorems `Gillespie.ic_gillespie` and
 `Gillespie.recovered_never_infected` are stated and proved in `Props/C04.lean` (one development about the model output).
